@@ -1,4 +1,4 @@
-import OjgVerif.Json.BufStep
+import OjgVerif.Json.BufNum
 /-! # The buffer loop against the byte machine: framework, delegated cases, whitespace skip
 
 `IterOK` is what one iteration of `loopBuf` owes the byte machine: it consumes some bytes of the buffer
@@ -110,7 +110,7 @@ def Side (T : Tables) (buf : Bytes) (m : St) (off : Nat) : Prop :=
 def IterOK (T : Tables) (cfg : Cfg) (buf : Bytes) (m : St) (off : Nat) : Except Err (St × Nat × Nat) → Prop
   | .error e => runBytes T cfg m (buf.drop off) = .error e
   | .ok (s', off', _) => off < off' ∧ ∃ m', runBytes T cfg m (buf.drop off) = runBytes T cfg m' (buf.drop off') ∧
-      Rel s' m' ∧ Side T buf m' off'
+      Rel s' m' ∧ Side T buf m' off' ∧ (NumInv m → NumInv m')
 
 theorem nf_fields {a b : St} (h : a.nf = b.nf) :
     a.mode = b.mode ∧ a.starts = b.starts ∧ a.stack = b.stack ∧ a.docs = b.docs ∧ a.num = b.num ∧
@@ -212,7 +212,8 @@ theorem iter_slow (fp : FP) (buf : Bytes) (s m : St) (off i : Nat) (b : UInt8) (
       · rw [hdrop]; conv => lhs; unfold runBytes
         rw [hm]
       · exact NmOK_clr (step_nm hT cfg.slow s x b hs hrel.ns)
-      · intro hf
+      · refine ⟨?_, fun hi => step_numInv hT cfg m m' b hm hi hrel.nm⟩
+        intro hf
         rw [step_inFast_false cfg m m' b hm hd hv] at hf
         cases hf
 
@@ -373,7 +374,8 @@ theorem iter_ws (fp : FP) (hws : fp.ws = true) (buf : Bytes) (s m : St) (off i :
         simp only [hK]
         refine ⟨by omega, { m' with pos := m'.pos + 0 }, ?_, hrel' 0, ?_⟩
         · rw [hrun1, hnil, drop_nil_of_le buf (off + i + 1) (by omega), St.pos_add_zero]
-        · intro hf; rw [hm'f] at hf; cases hf
+        · exact ⟨fun hf => (by rw [hm'f] at hf; cases hf),
+            fun hi => numInv_same rfl rfl (step_numInv hT cfg m m' b hm hi hrel.nm)⟩
       · rw [he]
         simp only [Nat.zero_add]
         rcases drop_split buf (off + 1) pre (c :: post) hsl with ⟨hd2, hlen2⟩ | hnil
@@ -391,7 +393,8 @@ theorem iter_ws (fp : FP) (hws : fp.ws = true) (buf : Bytes) (s m : St) (off i :
             rw [wsRun cfg pre m' hall hm'f]
             simp only
             rw [show off + pre.length + 1 = off + 1 + pre.length by omega, hd2]
-          · intro hf; rw [hm'f] at hf; cases hf
+          · exact ⟨fun hf => (by rw [hm'f] at hf; cases hf),
+              fun hi => numInv_same rfl rfl (step_numInv hT cfg m m' b hm hi hrel.nm)⟩
         · simp at hnil
 
 end OjgVerif.Json
